@@ -27,7 +27,7 @@ def classify (m : WireMsg) : Option Msg :=
   if codeIsResponse m.code then some (.resp { seq := m.piv, authentic := m.asResponse })
   else match m.piv with
     | some n =>
-      if codeStyleOk m.code then some (.req { seq := n, authentic := m.asRequest, echo := m.echo })
+      if codeStyleOk m.code && m.kid then some (.req { seq := n, authentic := m.asRequest, echo := m.echo })
       else none
     | none => none
 
@@ -44,14 +44,14 @@ theorem unprotectWire_response (c : Ctx) (m : WireMsg) (h : codeIsResponse m.cod
     cases ha : m.asResponse <;> cases win <;> cases er <;> simp [h, hq]
 
 theorem unprotectWire_request (c : Ctx) (m : WireMsg) (n : Nat) (hp : m.piv = some n)
-    (h : codeStyleOk m.code = true) :
+    (h : codeStyleOk m.code = true) (hk : m.kid = true) :
     unprotectWire c m =
       ((unprotect c { seq := n, authentic := m.asRequest, echo := m.echo }).1,
        .plain (unprotect c { seq := n, authentic := m.asRequest, echo := m.echo }).2) := by
   obtain ⟨hq, hr⟩ := codeStyleOk_spec h
   obtain ⟨size, win, er⟩ := c
   unfold unprotectWire unprotect
-  simp only [hp, hr, h, hq]
+  simp only [hp, hr, h, hq, hk]
   cases win with
   | none =>
     cases er with
@@ -74,18 +74,22 @@ theorem unprotectWire_request (c : Ctx) (m : WireMsg) (n : Nat) (hp : m.piv = so
       | true => cases er <;> simp [hv, hst]
 
 theorem unprotectWire_other (c : Ctx) (m : WireMsg) (hr : codeIsResponse m.code = false)
-    (h : m.piv = none ∨ codeStyleOk m.code = false) :
+    (h : m.piv = none ∨ codeStyleOk m.code = false ∨ m.kid = false) :
     (unprotectWire c m).1 = c ∧ (unprotectWire c m).2 ≠ .plain .accepted := by
   unfold unprotectWire
   cases hs : codeStyleOk m.code with
   | false => simp [hr]
   | true =>
-    cases hp : m.piv with
-    | none => simp [hr]
-    | some n =>
-      rcases h with h | h
-      · rw [hp] at h; cases h
-      · rw [hs] at h; cases h
+    cases hk : m.kid with
+    | false => simp [hr]
+    | true =>
+      cases hp : m.piv with
+      | none => simp [hr]
+      | some n =>
+        rcases h with h | h | h
+        · rw [hp] at h; cases h
+        · rw [hs] at h; cases h
+        · rw [hk] at h; cases h
 
 /-- the classification is exhaustive and exact -/
 theorem unprotectWire_classify (c : Ctx) (m : WireMsg) :
@@ -106,11 +110,16 @@ theorem unprotectWire_classify (c : Ctx) (m : WireMsg) :
     | some n =>
       cases hs : codeStyleOk m.code with
       | true =>
-        left
-        exact ⟨.req { seq := n, authentic := m.asRequest, echo := m.echo }, by simp,
-          by simpa [stepMsg] using unprotectWire_request c m n hp hs⟩
+        cases hk : m.kid with
+        | true =>
+          left
+          exact ⟨.req { seq := n, authentic := m.asRequest, echo := m.echo }, by simp,
+            by simpa [stepMsg] using unprotectWire_request c m n hp hs hk⟩
+        | false =>
+          right
+          exact ⟨by simp, unprotectWire_other c m hr (Or.inr (Or.inr hk))⟩
       | false =>
         right
-        exact ⟨by simp, unprotectWire_other c m hr (Or.inr hs)⟩
+        exact ⟨by simp, unprotectWire_other c m hr (Or.inr (Or.inl hs))⟩
 
 end Aiocoap.Oscore
